@@ -35,6 +35,7 @@ import FloxProofs.Grouped
 import FloxProofs.GroupedExamples
 import FloxProofs.Cohorts
 import FloxProofs.CohortsExamples
+import FloxProofs.TimeFills
 
 namespace Flox.C06
 
@@ -241,5 +242,26 @@ example : runKnown (mkCall Rnanlast .npg 4 2) (.mapreduce false) false [2, 1, 3,
 /-- order matters: no commutativity is available (and none is used) -/
 example : combineVal .nanfirst ([[Val.fin 1], [Val.fin 2]].map (blockVal .nanfirst Val.nan))
     ≠ combineVal .nanfirst ([[Val.fin 2], [Val.fin 1]].map (blockVal .nanfirst Val.nan)) := by decide +kernel
+
+
+/-! ## time dtypes: the missing-value fill is NaT (regenerated table, /repo 89983d8)
+
+  `nanfirst` / `nanlast` (and every other reduction whose blueprint uses the missing-value sentinel `dtypes.NA` as an
+  intermediate or final fill) on datetime64 / timedelta64 data: a group that is absent from a block must contribute the
+  MISSING value to the order-aware combine (`combine_nanfirst/nanlast` above skip it), never a genuine time value.  The
+  table is rebuilt on every run by calling `_initialize_aggregation` for both time dtypes. -/
+
+/-- for every reduction of the registry and both time dtypes: blueprint fill `NA` ⇒ resolved fill `NaT` -/
+theorem time_missing_fill_is_NaT (r : TimeFillRow) (hr : r ∈ Generated.timeFillRows) (hok : r.ok = true) (i : Nat)
+    (b x : String) (hb : r.blueprint[i]? = some b) (hx : r.resolved[i]? = some x) (hna : b = "NA") : x = "NaT" :=
+  TimeFills.na_is_nat r hr hok i b x hb hx hna
+
+/-- … while the ±infinity sentinels (identities of min / max) stay genuine, comparable values -/
+theorem time_infinity_fill_is_value : Generated.timeFillRows.all TimeFillRow.infIsValue = true :=
+  TimeFills.all_inf_is_value
+
+/-- non-vacuity: the rows of `nanfirst` / `nanlast` exist, are accepted, and consist of `NA` sentinels only -/
+example : (Generated.timeFillRows.filter fun r => (r.func == "nanfirst" || r.func == "nanlast") && r.ok
+            && r.blueprint.all (· == "NA")).length = 4 := by decide +kernel
 
 end Flox.C06
